@@ -75,10 +75,29 @@ def seg(m, x1, y1, x2, y2, r):
     return areas.segment(float(x1), float(y1), float(x2), float(y2), float(r))
 
 
-def interp(m, module, hooks):
+def interp(m, module, hooks, prune=False):
     hooks = dict(hooks)
     hooks.setdefault('sqrt', _h_sqrt(m))
-    return Interp(module, symbolic=m.sym, hooks=hooks)
+    I = Interp(module, symbolic=m.sym, hooks=hooks)
+    if prune and m.sym:
+        # branch pruning while the kernel is interpreted: a guard is dropped only if it is unsatisfiable together with what
+        # has been assumed / proved so far, decided on the LINEAR abstraction of the formulas (non-linear subterms become
+        # fresh reals: more models, so `unsat` transfers); anything else keeps the branch
+        from vf import solve
+        cache = {}
+
+        def feasible(g):
+            k = g.get_id()
+            if k not in cache:
+                c = symx.ctx()
+                lin, _ = solve.abstract_nonlinear(list(c.pc) + [g])
+                s_ = z3.Solver()
+                s_.set('timeout', 2000)
+                s_.add(lin)
+                cache[k] = (s_.check() != z3.unsat, g)
+            return cache[k][0]
+        I.feasible = feasible
+    return I
 
 
 def finish(m, I):
@@ -380,6 +399,146 @@ def h_ellipse_single(m):
 
 
 # --------------------------------------------------------------------------
+# L5 triangle / unit circle
+# --------------------------------------------------------------------------
+EPS = 1e-9      # vertices are kept this far (in squared distance) from the circle: the "on the circle" tolerance branches (1e-10) are outside the claim
+
+
+def _inside(x, y):
+    return x * x + y * y < 1 - EPS
+
+
+def _beyond(x, y):
+    return x * x + y * y > 1 + EPS
+
+
+def _pt(I, m, x, y):
+    from vf.pyxsym import Struct
+    s_ = Struct('point', I.structs['point'], I.structs)
+    s_._f['x'] = T(x) if m.sym else float(x)
+    s_._f['y'] = T(y) if m.sym else float(y)
+    return s_
+
+
+def _line_hints(m, ax, ay, ox, oy, slope, direction, asign='+'):
+    """lemma chain for the line through A (strictly inside) and O (strictly outside), parametrised the way circle_line does it
+    (by x when |dx| > |dy|, by y otherwise); u is the running coordinate, w the other one.  Slope, intercept and the two roots
+    are named abbreviations, so that each step is a small polynomial fact over those names."""
+    if slope == 'x':
+        uA, wA, uO, wO = ax, ay, ox, oy
+    else:
+        uA, wA, uO, wO = ay, ax, oy, ox
+    du, dw = uO - uA, wO - wA
+    m.assume(chk.Abs(ox - ax) > chk.Abs(oy - ay) if slope == 'x' else chk.Abs(ox - ax) <= chk.Abs(oy - ay))
+    m.assume(du > 1e-9 if direction == '+' else du < -1e-9)         # the routine treats points closer than 1e-10 as coincident
+    a_x = dw / du
+    b_x = wA - a_x * uA
+    a, b = m.define('a', a_x), m.define('b', b_x)
+    m.assume(a >= 0 if asign == '+' else a < 0)
+    m.lemma('slope times run = rise', chk.Eq(a * du, dw), use=['def a'])
+    m.lemma('A and O are on the line w = a u + b', And(chk.Eq(wA, a * uA + b), chk.Eq(wO, a * uO + b)), use=['def b', 'slope times run'])
+    m.lemma('slope is at most 1 in the running coordinate', And(a <= 1, a >= -1) if slope == 'y' else And(a < 1, a > -1), use=['slope times run'])
+    m.lemma('Cauchy-Schwarz: b^2 <= (1 + a^2) |A|^2', b * b <= (1 + a * a) * (uA * uA + wA * wA), use=['A and O are on the line'])
+    delta_x = 1 + a_x * a_x - b_x * b_x
+    sd = csqrt(delta_x)                       # the very symbol the routine's sqrt(delta) gets
+    m.lemma('discriminant in terms of a, b', chk.Eq(delta_x, 1 + a * a - b * b), use=['def a', 'def b'])
+    m.lemma('the line meets the circle: discriminant > 0', 1 + a * a - b * b > 0, use=['Cauchy-Schwarz: b^2'])
+    m.lemma('sd is the root of the discriminant', And(sd >= 0, chk.Eq(sd * sd, 1 + a * a - b * b)), use=['discriminant in terms', 'the line meets'])
+    den = 1 + a * a
+    u1 = m.define('u1', (-a * b - sd) / den)
+    u2 = m.define('u2', (-a * b + sd) / den)
+    m.lemma('root 1 cleared of its denominator', chk.Eq(den * u1, -a * b - sd), use=['def u1'])
+    m.lemma('root 2 cleared of its denominator', chk.Eq(den * u2, -a * b + sd), use=['def u2'])
+    m.lemma('the two roots are ordered', u1 <= u2, use=['root 1 cleared', 'root 2 cleared', 'sd is the root'])
+    q = lambda u_: den * u_ * u_ + 2 * a * b * u_ + b * b - 1          # = |(u, a u + b)|^2 - 1
+    m.lemma('roots: on the circle', And(chk.Eq(q(u1), 0), chk.Eq(q(u2), 0)), use=['root 1 cleared', 'root 2 cleared', 'sd is the root'])
+    m.lemma('sum and product of the roots', And(chk.Eq(den * (u1 + u2), -2 * a * b), chk.Eq(den * den * u1 * u2, den * (b * b - 1))),
+            use=['root 1 cleared', 'root 2 cleared', 'sd is the root'])
+    m.lemma('product of the roots', chk.Eq(den * u1 * u2, b * b - 1), use=['sum and product'])
+    m.lemma('factorisation at A', chk.Eq(den * (uA - u1) * (uA - u2), q(uA)), use=['sum and product', 'product of the roots'])
+    m.lemma('factorisation at O', chk.Eq(den * (uO - u1) * (uO - u2), q(uO)), use=['sum and product', 'product of the roots'])
+    m.lemma('A inside: q(A) < 0', q(uA) < 0, use=['A and O are on the line'])
+    m.lemma('O outside: q(O) > 0', q(uO) > 0, use=['A and O are on the line'])
+    m.lemma('A: the two offsets from the roots have opposite signs', (uA - u1) * (uA - u2) < 0, use=['factorisation at A', 'A inside: q(A)'])
+    m.lemma('O: the two offsets from the roots have the same sign', (uO - u1) * (uO - u2) > 0, use=['factorisation at O', 'O outside: q(O)'])
+    m.lemma('A is strictly between the roots', And(u1 < uA, uA < u2), use=['A: the two offsets', 'the two roots are ordered'])
+    m.lemma('O is not between the roots', Or(uO < u1, uO > u2), use=['O: the two offsets', 'the two roots are ordered'])
+    if direction == '+':
+        m.lemma('the crossing towards O is the larger root', And(uA < u2, u2 < uO), use=['A is strictly between', 'O is not between'])
+        uc = u2
+    else:
+        m.lemma('the crossing towards O is the smaller root', And(uO < u1, u1 < uA), use=['A is strictly between', 'O is not between'])
+        uc = u1
+    xy = (lambda u_: (u_, a * u_ + b)) if slope == 'x' else (lambda u_: (a * u_ + b, u_))
+    return {'crossing': xy(uc), 'roots': (xy(u1), xy(u2)), 'a': a, 'b': b, 'u1': u1, 'u2': u2, 'uO': uO, 'uA': uA, 'wO': wO}
+
+
+def h_crossing(slope, direction, asign, m):
+    """circle_segment_single2(A, O) with A strictly inside and O strictly outside the unit circle returns the point of the
+    segment AO that lies on the circle"""
+    import ast as _ast
+    ax, ay, ox, oy = m.real('ax'), m.real('ay'), m.real('ox'), m.real('oy')
+    m.assume(And(_inside(ax, ay), _beyond(ox, oy)))
+    ref = _line_hints(m, ax, ay, ox, oy, slope, direction, asign)
+    cx_, cy_ = ref['crossing']
+
+    def h_line(I, args, guard):
+        """run the real circle_line, then state (and prove) what the selection logic that follows needs, in the routine's own terms"""
+        inter = I.run(I.funcs['circle_line'], args, guard)
+        if not m.sym:
+            return inter
+        p1, p2 = inter._f['p1'], inter._f['p2']
+        k = {n_: SymReal(Rnum(v_)) for n_, v_ in (('p1x', p1._f['x']), ('p1y', p1._f['y']), ('p2x', p2._f['x']), ('p2y', p2._f['y']))}
+        (r1, r2) = ref['roots']                       # (x, y) of the smaller-u and the larger-u root
+        m.lemma('circle_line returns the two roots, smaller running coordinate first',
+                And(chk.Eq(k['p1x'], r1[0]), chk.Eq(k['p1y'], r1[1]), chk.Eq(k['p2x'], r2[0]), chk.Eq(k['p2y'], r2[1])), use=['def a', 'def b', 'def u1', 'def u2'])
+        fab = lambda t: SymReal(I.builtin('fabs', [t.t], guard))
+        dx1, dy1, dx2, dy2 = fab(k['p1x'] - ox), fab(k['p1y'] - oy), fab(k['p2x'] - ox), fab(k['p2y'] - oy)
+        aa, uO, wO = ref['a'], ref['uO'], ref['wO']
+        absa = aa if asign == '+' else -aa
+        towards = ['the crossing towards O', 'the two roots are ordered', 'A is strictly between']
+        rows = (('1', ref['u1'], (k['p1y'] if slope == 'x' else k['p1x']), ((dx1, dy1) if slope == 'x' else (dy1, dx1))),
+                ('2', ref['u2'], (k['p2y'] if slope == 'x' else k['p2x']), ((dx2, dy2) if slope == 'x' else (dy2, dx2))))
+        for nm, uu, pw, (du_, dw_) in rows:
+            # O lies beyond both roots on the side fixed by `direction`: the running offsets have a known sign
+            off = (uO - uu) if direction == '+' else (uu - uO)
+            m.lemma(f'root {nm}: running offset from O', And(off > 0, chk.Eq(du_, off)), use=['circle_line returns'] + towards)
+            m.lemma(f'root {nm}: other offset = slope * running offset', chk.Eq(pw - wO, aa * (uu - uO)), use=['circle_line returns', 'A and O are on the line'])
+            m.lemma(f'root {nm}: |slope| * running offset >= 0', absa * off >= 0, use=[f'root {nm}: running offset'])
+            m.lemma(f'root {nm}: other offset in absolute value', chk.Eq(dw_, absa * off),
+                    use=[f'root {nm}: other offset = slope', f'root {nm}: |slope| * running', f'root {nm}: running offset'])
+        if slope == 'x':
+            m.lemma('|slope| * offset < offset', absa * ((uO - ref['u1']) if direction == '+' else (ref['u1'] - uO)) < ((uO - ref['u1']) if direction == '+' else (ref['u1'] - uO)),
+                    use=['root 1: running offset', 'slope is at most 1'])
+            m.lemma('selection compares the running coordinate (x)', dx1 > dy1,
+                    use=['root 1: running offset', 'root 1: other offset in absolute', '|slope| * offset < offset'])
+            m.lemma('selection picks the root towards O', (dx1 > dx2) if direction == '+' else Not(dx1 > dx2),
+                    use=['root 1: running offset', 'root 2: running offset'] + towards)
+        else:
+            m.lemma('|slope| * offset <= offset', absa * ((uO - ref['u1']) if direction == '+' else (ref['u1'] - uO)) <= ((uO - ref['u1']) if direction == '+' else (ref['u1'] - uO)),
+                    use=['root 1: running offset', 'slope is at most 1'])
+            m.lemma('selection compares the running coordinate (y)', Not(dx1 > dy1),
+                    use=['root 1: running offset', 'root 1: other offset in absolute', '|slope| * offset <= offset'])
+            m.lemma('selection picks the root towards O', (dy1 > dy2) if direction == '+' else Not(dy1 > dy2),
+                    use=['root 1: running offset', 'root 2: running offset'] + towards)
+        return inter
+    I = interp(m, 'core', {'circle_line': h_line}, prune=True)
+    pt = I.call('circle_segment_single2', A(m, [ax, ay, ox, oy]))
+    finish(m, I)
+    px, py = V(pt._f['x'], m), V(pt._f['y'], m)
+    dxx, dyy = ox - ax, oy - ay
+    if m.sym:
+        m.lemma('the routine returns the root towards O', And(chk.Eq(px, cx_), chk.Eq(py, cy_)),
+                use=['circle_line returns', 'selection compares', 'selection picks'])
+    m.require('the returned point is on the unit circle', chk.Eq(px * px + py * py, 1), use=['the routine returns', 'roots: on the circle'])
+    m.require('the returned point is on the line through the two points', chk.Eq((px - ax) * dyy - (py - ay) * dxx, 0),
+              use=['the routine returns', 'A and O are on the line'])
+    dot = (px - ax) * dxx + (py - ay) * dyy
+    m.require('the returned point lies between the two points', And(dot >= 0, dot <= dxx * dxx + dyy * dyy),
+              use=['the routine returns', 'the crossing towards O', 'A and O are on the line'])
+
+
+# --------------------------------------------------------------------------
 # L6 the segment formula
 # --------------------------------------------------------------------------
 def h_arc_formula(unit, m):
@@ -507,6 +666,10 @@ def harnesses(tier):
                             hs.append((f'ellipse/grid/{nx}x{ny}/pixel-{i}-{j}/x-{xc}/y-{yc}/major-{mj}', P(h_ellipse_grid, nx, ny, i, j, xc, yc, mj)))
     hs.append(('ellipse/within-major-axis-disc', h_ellipse_in_disc))
     hs.append(('ellipse/single-pixel', h_ellipse_single))
+    for sl in ('x', 'y'):
+        for dr in ('+', '-'):
+            for sg in ('+', '-'):
+                hs.append((f'triangle/crossing-point/slope-{sl}/towards{dr}/slope-sign{sg}', P(h_crossing, sl, dr, sg)))
     hs.append(('segment-formula/radius-r', P(h_arc_formula, False)))
     hs.append(('segment-formula/unit', P(h_arc_formula, True)))
     hs.append(('plumbing/circle', P(h_plumbing, 'circle', None)))
